@@ -46,7 +46,11 @@ type C01Body struct {
 }
 
 var prefixCollisions = func() [][2][]byte {
-	b, err := os.ReadFile("/verif/fixtures/prefix_collisions.json")
+	dir := os.Getenv("DSIM_VERIF_DIR")
+	if dir == "" {
+		dir = "/verif"
+	}
+	b, err := os.ReadFile(dir + "/fixtures/prefix_collisions.json")
 	if err != nil {
 		return nil
 	}
